@@ -59,7 +59,28 @@ ASSUMPTIONS = [
     "empty page_numbers means all pages (Python truthiness); maxpages is a natural number, 0 = no limit",
     "tree depth stays below Python's recursion limit (generated depth <= 25 quick / <= 200 thorough)",
 ]
-STATEMENT_STATUS: Dict[str, str] = {}
+STATEMENT_STATUS: Dict[str, str] = {
+    "C04_order": "proved: any page tree contained in the object graph (each node once, Kids = references), any "
+                 "shape and depth; hypothesis: the catalog carries no inheritable attribute",
+    "C04_inherit": "proved: own value or nearest ancestor's, for the regenerated INHERITABLE_ATTRS, any depth",
+    "C04_pages": "proved: PDFPage objects of the walk = PDFPage objects built from own-or-inherited attributes",
+    "C04_create_pages": "proved for trees with >= 1 page (with none the fallback scan over all objects runs)",
+    "C04_driver_domain": "proved: documents accepted by the driver's spec.pages satisfy the hypotheses of C04_pages",
+    "C04_catalog_attr_cex": "proved counter-example showing the catalog hypothesis is needed (catalog-level Rotate "
+                            "is inherited by the code; outside the property's domain of Pages/Page trees)",
+    "C04_terminates": "proved: on every finite graph recursion budget |nodes|+1 is never exhausted, no node is "
+                      "visited twice, no page is yielded twice; NOT proved: that on a cyclic graph every reachable "
+                      "page is yielded in first-visit order (harness only)",
+    "C04_rotate": "proved for every integer Rotate",
+    "C04_page_values": "proved: every constructed page has 0 <= rotate < 360 and normalised MediaBox/CropBox",
+    "C04_box_normalised": "proved: regenerated _normalize_rect",
+    "C04_ctm": "proved: Rotate in {0,90,180,270}, every MediaBox and point over Q (regenerated table)",
+    "C04_ctm_bbox": "proved: LTPage.bbox = (0,0,w',h') for normalised MediaBox (regenerated begin_page)",
+    "C04_ctm_corners": "proved: corners move clockwise by Rotate/90 places",
+    "C04_render": "proved: harness observation (bbox + glyph matrix) = specification",
+    "C04_select": "proved: maxpages natural (0 = no limit), empty page_numbers = all",
+    "C04_select_pinned_cex": "proved counter-example for the pinned loop (page_numbers={5}, maxpages=2); fixed in 73f827a",
+}
 
 CLASSIFIERS = {
     "c04_select_beyond_maxpages": lambda f: f.tags.get("op") == "select" and f.tags.get("beyond_limit", False),
